@@ -5,7 +5,7 @@
 //!   c13 --write-golden <dir>                   write the golden corpus of the fuzz target
 use c13core::{
     cmsg::{run_cmsg, BufKind, CmsgCase, Data, Msg},
-    frames::{run_frames, run_hostile, CodecKind, Doc, FrameCase, Framer, HostileCase, Items, SIG_LEN_OVERFLOW},
+    frames::{run_frames, run_hostile, CodecKind, Doc, Excl, FrameCase, Framer, HostileCase, Items},
     gen,
     mock::Frag,
     unstructured,
@@ -27,11 +27,12 @@ fn bytes_case(framer: Framer, frames: &[&[u8]], rsched: Vec<Frag>) -> FrameCase 
         rsched,
         rcap: 0,
         wcap: 0,
+        strict: true,
     }
 }
 
 fn golden_hostile() -> Vec<(&'static str, HostileCase)> {
-    let h = |framer, codec, stream: &[u8], rsched: Vec<Frag>| HostileCase { framer, codec, stream: stream.to_vec(), rsched, rcap: 0 };
+    let h = |framer, codec, stream: &[u8], rsched: Vec<Frag>| HostileCase { framer, codec, stream: stream.to_vec(), rsched, rcap: 0, strict: true };
     let test_doc = br#"{"id":114514,"name":"Test","n":-1,"flag":true,"tags":["a"],"child":null}"#;
     let mut json_len = vec![0, 0, 0, test_doc.len() as u8];
     json_len.extend_from_slice(test_doc);
@@ -59,6 +60,7 @@ fn golden_hostile() -> Vec<(&'static str, HostileCase)> {
 
 fn main() {
     let mut s = Session::new();
+    let excl = Excl::from_signatures(&s.known_signatures("C13"));
     // ---- auxiliary modes
     let rest = s.args.rest.clone();
     if let Some(i) = rest.iter().position(|a| a == "--from-bytes") {
@@ -67,7 +69,7 @@ fn main() {
         match unstructured::decode(&bytes) {
             Ok(input) => {
                 println!("{}", vcore::serde_json::to_string_pretty(&input).unwrap());
-                match vcore::guarded(|| unstructured::run(&input)) {
+                match vcore::guarded(|| unstructured::run(&input, Excl::default())) {
                     Ok(Outcome::Violation { signature, detail }) | Err((signature, detail)) => {
                         eprintln!("{signature}\n  {detail}");
                         let known = s.known_or_none("C13", &signature);
@@ -90,7 +92,8 @@ fn main() {
             let b = unstructured::encode_hostile(&c);
             // the encoding must decode to the same case
             match unstructured::decode(&b) {
-                Ok(unstructured::Input::Hostile(d)) => {
+                Ok(unstructured::Input::Hostile(mut d)) => {
+                    d.strict = c.strict;
                     assert_eq!(vcore::serde_json::to_string(&d).unwrap(), vcore::serde_json::to_string(&c).unwrap(), "golden {name} does not round-trip through the byte decoder")
                 }
                 other => panic!("golden {name} decodes to {other:?}"),
@@ -112,8 +115,8 @@ fn main() {
          schedule (fragment sizes 1..400, optional Pending), custom buffer capacities. Oracle: decoded sequence == encoded sequence, then None (NoopFramer: concatenation equal, chunks \
          1..=4096). Non-trivial = at least 2 frames and a fragment boundary strictly inside a length header or delimiter (for 1-byte headers/delimiters: strictly inside a frame).",
     );
-    p.quick_cases = 20_000;
-    p.thorough_cases = 1_000_000;
+    p.quick_cases = 100_000;
+    p.thorough_cases = 2_000_000;
     p.threads = 8;
     p.assumptions = vec![
         "payload length < 2^(8*width) for LengthDelimited; delimiter framers get payloads whose first delimiter occurrence in payload++delimiter is at the end",
@@ -141,6 +144,7 @@ fn main() {
                 rsched: vec![],
                 rcap: 0,
                 wcap: 0,
+                strict: true,
             },
         ),
         (
@@ -155,6 +159,7 @@ fn main() {
                 rsched: vec![f(1)],
                 rcap: 0,
                 wcap: 0,
+                strict: true,
             },
         ),
         (
@@ -169,10 +174,11 @@ fn main() {
                 rsched: vec![f(1)],
                 rcap: 0,
                 wcap: 0,
+                strict: true,
             },
         ),
     ];
-    s.run_part(p, gen::frame_case(), run_frames);
+    s.run_part(p, gen::frame_case(), move |c| run_frames(c, excl));
 
     // ---- (iii) hostile input
     let mut p = Part::new(
@@ -184,15 +190,15 @@ fn main() {
          bytes + 4; the item sequence must equal an independent reference parse of the stream (so it is also independent of the fragmentation); after an I/O error one more poll must not \
          panic. Non-trivial = the reference parse finds (and the stream yields) at least one complete frame, i.e. extract returned Some.",
     );
-    p.quick_cases = 20_000;
-    p.thorough_cases = 1_000_000;
+    p.quick_cases = 200_000;
+    p.thorough_cases = 4_000_000;
     p.threads = 8;
     p.assumptions = vec![
         "hostile bytes are never given to the unsafe constructors AncillaryIter::new / RecvMsgMultiResult::new (their contract demands kernel-valid input)",
         "set_length_field_len(0) and an empty AnyDelimited delimiter are outside the listed parameter space (width 1..8, non-empty delimiters)",
     ];
     p.regressions = golden_hostile();
-    s.run_part(p, gen::hostile_case(), run_hostile);
+    s.run_part(p, gen::hostile_case(), move |c| run_hostile(c, excl));
 
     // ---- (ii) ancillary builder / iterator
     let mut p = Part::new(
@@ -204,8 +210,8 @@ fn main() {
          model image (cleared on creation), buf_len == sum of CMSG_SPACE, canaries intact, iterator returns exactly the accepted messages (level, type, len, data) then None, and asking a \
          message for a value larger than its payload fails. Non-trivial = at least 2 accepted messages.",
     );
-    p.quick_cases = 20_000;
-    p.thorough_cases = 1_000_000;
+    p.quick_cases = 100_000;
+    p.thorough_cases = 2_000_000;
     p.threads = 8;
     p.assumptions = vec!["Linux x86-64 control message layout (cmsghdr 16 bytes, alignment 8)", "AncillaryIter::new is only given buffers produced by AncillaryBuilder (kernel-valid by construction)"];
     p.regressions = vec![
@@ -214,6 +220,7 @@ fn main() {
             CmsgCase {
                 buf: BufKind::Fixed { ix: 4 },
                 prefill: 0,
+                strict: true,
                 msgs: vec![
                     Msg { level: 0, ty: 0, data: Data::Unit },
                     Msg { level: 1, ty: 1, data: Data::U8(u8::MAX) },
@@ -228,11 +235,11 @@ fn main() {
             CmsgCase {
                 buf: BufKind::Custom { len: ((40 - 16) * 65536usize / 345 + 1) as u16 },
                 prefill: 0xFF,
+                strict: true,
                 msgs: vec![Msg { level: 1, ty: 2, data: Data::U8(7) }, Msg { level: 3, ty: 4, data: Data::Unit }, Msg { level: 5, ty: 6, data: Data::Unit }],
             },
         ),
     ];
-    s.run_part(p, gen::cmsg_case(), run_cmsg);
-    let _ = SIG_LEN_OVERFLOW;
+    s.run_part(p, gen::cmsg_case(), move |c| run_cmsg(c, excl));
     s.finish();
 }
